@@ -639,3 +639,25 @@ func EvalPathNative(code, pkg, rule, normalized, sourceID string, g *Graph) ([]s
 
 // RealResults parses a real report into level|validation|node keys (node ids http://x.org/n<k>).
 func RealResults(report string) ([]string, bool, error) { return realResults(report, nil) }
+
+// RealResultsWithMessages: severity|validation|focus|message of every result of a real report.
+func RealResultsWithMessages(report string) ([]string, bool, error) {
+	var doc []map[string]any
+	if err := json.Unmarshal([]byte(report), &doc); err != nil || len(doc) == 0 {
+		return nil, false, fmt.Errorf("report is not a JSON dialect instance: %v", err)
+	}
+	enc, _ := doc[0]["doc:encodes"].([]any)
+	if len(enc) != 1 {
+		return nil, false, fmt.Errorf("report does not encode exactly one node")
+	}
+	rn := enc[0].(map[string]any)
+	conforms, _ := rn["conforms"].(bool)
+	var out []string
+	results, _ := rn["result"].([]any)
+	for _, r := range results {
+		m := r.(map[string]any)
+		out = append(out, fmt.Sprintf("%v|%v|%v|%v", m["resultSeverity"], m["sourceShapeName"], m["focusNode"], m["resultMessage"]))
+	}
+	sort.Strings(out)
+	return append([]string{fmt.Sprintf("conforms=%v", conforms)}, dedupe(out)...), conforms, nil
+}
